@@ -435,6 +435,11 @@ func caseSpec() {
 			names = names[:20]
 		}
 	}
+	if rnd.Chance(25) {
+		// a compressed stack name and its own expansion as two counters
+		names = append(names, fmtgen.TwinNames(rnd)...)
+		out.Note("spec-twin-names")
+	}
 	cs := make([]fmtgen.KV, len(names))
 	for i, n := range names {
 		cs[i] = fmtgen.KV{Name: n, Val: rnd.Uint64() >> uint(rnd.Intn(64))}
